@@ -440,6 +440,15 @@ def call_ext(ex, fv, args, kwargs, st, node):
         for k, v in kwargs.items():
             if k not in mult:
                 raise Unsupported(f"timedelta({k}=...)")
+            if isinstance(v, (SFloat, SNum)) or isinstance(v, float):
+                # a float amount: modelled when it is provably a whole number on this path (no sub-second part to carry)
+                rt = to_real_term(v)
+                probe = st.fork()
+                probe.assume(z3.Not(z3.IsInt(rt)))
+                if ex.ctx.feasible(probe):
+                    raise Unsupported(f"timedelta({k}=<float that may have a fractional part>)")
+                tot = tot + mult[k] * z3.ToInt(rt)
+                continue
             tot = tot + mult[k] * to_int_term(v)
         yield st, TimeDeltaV(z3.simplify(tot))
         return
@@ -457,7 +466,19 @@ def call_ext(ex, fv, args, kwargs, st, node):
         if [a for a in args] == [1970, 1, 1]:
             yield st, DateTimeV(0, 0, kwargs.get("tzinfo"))
             return
-        raise Unsupported("datetime(...) other than the epoch")
+        if 3 <= len(args) <= 7 and all(isinstance(a, int) and not isinstance(a, bool) for a in args) and set(kwargs) <= {"tzinfo"}:
+            # any concrete naive date: its position on the wall-clock axis, by python's own calendar arithmetic
+            import datetime as _dt
+
+            try:
+                d = _dt.datetime(*args)
+            except ValueError:
+                ex.need(st, False, "ValueError", node)
+                return
+            delta = d - _dt.datetime(1970, 1, 1)
+            yield st, DateTimeV(delta.days * 86400 + delta.seconds, delta.microseconds, kwargs.get("tzinfo"))
+            return
+        raise Unsupported("datetime(...) with symbolic fields")
     if n.startswith("hexital.exceptions."):
         yield st, None
         return
